@@ -67,6 +67,71 @@ def resolve_name(fn: ast.AST, e: ast.AST, depth: int = 0) -> ast.AST:
     return e
 
 
+def dict_path(fn: ast.AST, e: ast.AST, depth: int = 0) -> Optional[Tuple[str, ...]]:
+    """The key path an expression denotes inside a nested dict: g[a][b], g.get(a, {}).get(b), g.setdefault(a, {})[b] and a local bound to
+    any of those all give (g, a, b).  None when the expression is not such an access."""
+    if isinstance(e, ast.Subscript):
+        base = dict_path(fn, e.value, depth)
+        return None if base is None else base + (src(e.slice),)
+    if isinstance(e, ast.Call) and isinstance(e.func, ast.Attribute) and e.func.attr in ("get", "setdefault") and e.args:
+        base = dict_path(fn, e.func.value, depth)
+        return None if base is None else base + (src(e.args[0]),)
+    if isinstance(e, ast.Name):
+        ds = defs_of(fn, e.id) if depth < 3 else []
+        if len(ds) == 1:
+            p = dict_path(fn, ds[0], depth + 1)
+            if p is not None and len(p) > 1:
+                return p
+        return (e.id,)
+    if isinstance(e, ast.Attribute):
+        return (src(e),)
+    return None
+
+
+def unguarded_index(fn: ast.AST, e: ast.AST, gs) -> List[str]:
+    """the `base[key]` steps of a nested-dict read that are not protected by `key in base` among the guards gs (a .get step protects itself)"""
+    bad = []
+    cur = e
+    while True:
+        if isinstance(cur, ast.Subscript):
+            if (f"{src(cur.slice)} in {src(cur.value)}", True) not in gs:
+                bad.append(src(cur))
+            cur = cur.value
+        elif isinstance(cur, ast.Call) and isinstance(cur.func, ast.Attribute) and cur.func.attr in ("get", "setdefault"):
+            cur = cur.func.value
+        else:
+            return bad
+
+
+def conditional_defs(fn: ast.AST, e: ast.AST, depth: int = 0):
+    """[(value, {(positive test, truth)})]: the values an expression can have with the closed guard set each one stands under.  A name is
+    followed to its assignments (each with the guards of the assignment); a conditional expression contributes one entry per arm."""
+    from sa.core.paths import guards, parent_map, positive
+    pm = parent_map(fn)
+    out = []
+
+    def arms(v, gs):
+        if isinstance(v, ast.IfExp):
+            t, tr = positive(v.test, True)
+            arms(v.body, gs | {(src(t), tr)})
+            arms(v.orelse, gs | {(src(t), not tr)})
+        elif isinstance(v, ast.Name) and depth < 3 and defs_of(fn, v.id):
+            for v2, g2 in conditional_defs(fn, v, depth + 1):
+                out.append((v2, gs | g2))
+        else:
+            out.append((v, gs))
+
+    if isinstance(e, ast.Name):
+        ds = [st for st in walk_no_nested(fn) if isinstance(st, ast.Assign) and any(isinstance(t, ast.Name) and t.id == e.id for t in st.targets)]
+        if not ds:
+            return [(e, frozenset())]
+        for d in ds:
+            arms(d.value, frozenset((src(t), tr) for t, tr in guards(fn, d, pm)))
+    else:
+        arms(e, frozenset())
+    return out
+
+
 def rep_ctor_calls(fn: ast.AST, names=("cpp_value", "cpp_variable", "cpp_collection", "cpp_sequence", "cpp_tuple", "cpp_dict", "cpp_ttree_rep")):
     return [c for c in walk_no_nested(fn) if isinstance(c, ast.Call) and call_name(c) in names]
 
@@ -283,9 +348,35 @@ def check_prefix_test(col, rule: str, repo: Repo):
     col.add(rule, "gc_scope.starts_with", "every-frame-compared-by-identity", ok,
             "starts_with must compare all frames, from the outermost one, by identity (`a is b` over zip of the two stacks): two translations "
             "have different outermost blocks, and a representation left on a shared AST node by an earlier translation must not look valid; " + why, f.loc)
-    lg = any(isinstance(n, ast.If) and isinstance(n.test, ast.Compare) and isinstance(n.test.ops[0], ast.Gt) and "len(c._scope_stack)" in src(n.test.left)
-             and any(isinstance(r, ast.Return) and src(r.value) == "False" for r in n.body) for n in ast.walk(f.node))
-    col.add(rule, "gc_scope.starts_with", "longer-scope-is-never-a-prefix", lg, "a scope with more frames than ours cannot be our prefix", f.loc)
+    verdicts = prefix_test_table(f)
+    col.add(rule, "gc_scope.starts_with", "longer-scope-is-never-a-prefix", verdicts["longer"],
+            "a scope with more frames than ours cannot be our prefix: whenever the other scope is not the top level and has more frames the answer "
+            "must be False, and otherwise (neither is the top level) the answer is the frame-by-frame comparison", f.loc)
+
+
+def prefix_test_table(f) -> Dict[str, bool]:
+    """gc_scope.starts_with as a truth table over its four tests: C other-is-top-level, S self-is-top-level, L other-has-more-frames,
+    A all-frames-identical.  Spec: C or (not S and not L and A), however the cases are spelled."""
+    from sa.core.paths import predicate_table
+    other = f.node.args.args[1].arg
+    atoms, table = predicate_table(f.node)
+    C, S = f"{other}.is_top_level()", "self.is_top_level()"
+    L = f"len(self._scope_stack) < len({other}._scope_stack)"
+    A = [a for a in atoms if a.startswith("all(")]
+    extra = [a for a in atoms if a not in (C, S, L) and a not in A]
+    if extra or len(A) != 1 or C not in atoms:
+        return {"top": False, "longer": False, "why": f"tests {atoms}"}
+    top = longer = True
+    for bits, r in table.items():
+        env = dict(zip(atoms, bits))
+        c, s_, l_, a_ = env[C], env.get(S, False), env.get(L, False), env[A[0]]
+        if c:
+            top = top and r is True
+        elif l_ and L in atoms:
+            longer = longer and r is False
+        elif not s_:
+            longer = longer and L in atoms and r == a_
+    return {"top": top, "longer": longer}
 
 
 def check_rescope(col, rule: str, repo: Repo):
@@ -367,8 +458,8 @@ def check_core_scope_semantics(col, rule: str, repo: Repo):
     v = one_return(sw)
     col.add(rule, "gc_scope_top_level.starts_with", "top-level-only-starts-with-top-level", v is not None and src(v) == "type(c) is gc_scope_top_level", "", sw.loc)
     sws = gs.methods["starts_with"]
-    s = src(sws.node)
-    col.add(rule, "gc_scope.starts_with", "everything-starts-with-top-level", "if c.is_top_level():\n        return True" in s, "", sws.loc)
+    col.add(rule, "gc_scope.starts_with", "everything-starts-with-top-level", prefix_test_table(sws)["top"],
+            "whenever the other scope is the top level the answer is True", sws.loc)
 
     gc = repo.find_class("generated_code")
     ad = gc.methods["add_statement"]
@@ -383,8 +474,12 @@ def check_core_scope_semantics(col, rule: str, repo: Repo):
     v = one_return(cs)
     col.add(rule, "generated_code.current_scope", "token-of-the-whole-stack", v is not None and src(v) == "gc_scope(self._scope_stack)", "", cs.loc)
     ss = gc.methods["set_scope"]
-    s = src(ss.node)
-    ok = "self._scope_stack = scope_info._scope_stack" in s and "if scope_info.is_top_level():\n        self._scope_stack = self._scope_stack[:1]\n        return" in s
+    from sa.core.paths import assigns
+    asg = assigns(ss.node, "self._scope_stack")
+    arg0 = ss.node.args.args[1].arg
+    top = [(src(v), g) for v, g, _ in asg if (f"{arg0}.is_top_level()", True) in g]
+    deep = [(src(v), g) for v, g, _ in asg if (f"{arg0}.is_top_level()", False) in g]
+    ok = len(asg) == 2 and [v for v, _ in top] == ["self._scope_stack[:1]"] and [v for v, _ in deep] == [f"{arg0}._scope_stack"]
     col.add(rule, "generated_code.set_scope", "restores-the-token's-stack", ok,
             "set_scope must restore exactly the token's stack (top level = the outermost block only)", ss.loc)
     dvc = gc.methods["declare_variable"]
@@ -405,8 +500,13 @@ def check_core_scope_semantics(col, rule: str, repo: Repo):
     col.add(rule, "block.declare_variable", "appends-in-order", "self._variables += [n]" in s or "self._variables.append(n)" in s, "", bk.methods["declare_variable"].loc)
     s = src(bk.methods["set_rep"].node)
     col.add(rule, "block.set_rep", "refuses-a-second-definition", "raise BlockException" in s and "self._rep_dict[name] = value" in s, "", bk.methods["set_rep"].loc)
-    s = src(bk.methods["get_rep"].node)
-    col.add(rule, "block.get_rep", "own-definitions-only", "return self._rep_dict[name]" in s and "return None" in s, "", bk.methods["get_rep"].loc)
+    from sa.core.paths import outcomes
+    bgr = bk.methods["get_rep"]
+    key = bgr.node.args.args[1].arg
+    outs = outcomes(bgr.node)
+    ok = len(outs) == 2 and [o.text for o in outs if o.under((f"{key} in self._rep_dict", True))] == [f"self._rep_dict[{key}]"] \
+        and [o.text for o in outs if o.under((f"{key} in self._rep_dict", False))] == ["None"]
+    col.add(rule, "block.get_rep", "own-definitions-only", ok, "a known key returns this block's own value, an unknown one None", bgr.loc)
 
     # as_sequence: an existing sequence is reused; a collection is looped over once per block chain (remembered on the cursor)
     qs = repo.method("query_ast_visitor", "as_sequence")
